@@ -13,7 +13,10 @@ Import ListNotations.
 Open Scope Z_scope.
 
 Inductive obs :=
-| OConnect                        (* a client session is up and the server side went through lines 74-88 *)
+| OConnect                        (* a client connected, its handshake finished and the server side went through the
+                                     closed-test + registration (RawAccept; SessionUp) *)
+| ORawConnect                     (* a client connected at the socket level only: the server is in its handshake *)
+| OHandshakeDone                  (* that client has now completed its handshake (SessionUp) *)
 | OOpen (s : nat)                 (* client s opened a stream and flushed its first bytes *)
 | OAccept (s k : nat)             (* Accept returned the conn of the k-th stream of session s *)
 | OAcceptErr                      (* Accept returned an error *)
@@ -121,7 +124,9 @@ Definition fire (st : state) (e : event) : list state := if enabled st e then [f
 
 Definition apply_obs (st : state) (o : obs) : list state :=
   match o with
-  | OConnect => fire st SessionUp
+  | OConnect => flat_map (fun a => fire a SessionUp) (fire st RawAccept)
+  | ORawConnect => fire st RawAccept
+  | OHandshakeDone => fire st SessionUp
   | OOpen s => fire st (StreamIn s)
   | OAccept s k =>
     match backlog st with
